@@ -221,7 +221,12 @@ def run(ctx):
             outs = ex.run(pre_thread, [PTR("EMU")], store)
             acc = [o for o in outs if o.kind == "ret" and o.ret == INT(0)]
             inst = "%s:%s" % (evs["name"], stname)
-            ctx.need(acc, "C05: no accepting path for %s (see C04)" % inst)
+            if not acc:
+                # the documented transition is refused: that is C04's finding (R4.1); nothing is recounted on a
+                # path that does not exist, so there is nothing for this rule to decide here
+                ctx.note("R5.1 %s: no accepting path (the transition is refused; see C04 R4.1)" % inst)
+                skipped_r51 = True
+                continue
             probs = []
             for o in acc:
                 probs += check_path(o, "TH", store[KC])
@@ -283,3 +288,9 @@ def run(ctx):
              "affinity handlers - to main's exit status")
     from rules import round4
     round4.check_cpu_update_failure_propagates(ctx, "R5.6")
+    ctx.rule("R5.7", "the CPU rows carry PID, TID and the running count under the PRV types the shipped CPU views select "
+             "for those labels (cfg/cpu/*/*.cfg); the CPU names of the affinity view are keyed gindex + 1 (C13 R13.8)")
+    from rules import round6
+    round6.check_cpu_prv_types_vs_cfg(ctx, "R5.7")
+    round6.share(ctx, "R5.7", "C13", lambda i_: i_["rule"] == "R13.2" and i_["inst"].startswith("cpu-affinity"), "affinity-label:",
+                 "each thread's CPU value is labelled with another CPU's name", 1)
